@@ -168,6 +168,10 @@ def random_sites(rng, symops, want_special):
                 pos = random_general(rng)
             sites.append((z, occ, pos))
         if separation_ok(symops, sites):
+            # asymmetric units are not confined to the reference cell (molecules straddle faces): move some sites by whole
+            # lattice vectors; images stay within (-7, inf), the range the `+ 7.0` of the wrapping is written for
+            if rng.random() < 0.4:
+                sites = [(z, occ, tuple(c + rng.randint(-2, 2) for c in pos)) if rng.random() < 0.7 else (z, occ, pos) for (z, occ, pos) in sites]
             return sites, nspecial
     return None, 0
 
